@@ -104,6 +104,73 @@ def run_case(cfg, rng):
     return idnt, true, cols, fmax, span, sigma
 
 
+def refit_sequences(run):
+    """the same curve object fitted twice: first handicapped (a bound that pins
+    the modulus, a fixed wrong contact point, a range without contact), then
+    with the handicap lifted and otherwise identical settings -- the second
+    fit must recover the generating parameters"""
+    from nanite import model
+    for mk in ["hertz_para", "hertz_cone", "sneddon_spher_approx"]:
+        true = fits.default_params(mk, E=5000.0, contact_point=3e-7,
+                                   baseline=2e-11)
+        cols = fits.model_curve(mk, true, n_app=300, n_ret=100)
+        fmax = float(np.max(np.abs(cols["force"])))
+        span = float(np.ptp(cols["tip position"]))
+
+        def start():
+            p = model.models_available[mk].get_parameter_defaults()
+            for name in p:
+                if name in true and name not in ("E", "contact_point",
+                                                 "baseline"):
+                    p[name].set(value=true[name])
+            p["E"].set(value=1500.0)
+            p["contact_point"].set(value=3.2e-7)
+            p["baseline"].set(value=0.0)
+            return p
+        handicaps = {
+            "upper bound of E below the truth": (
+                lambda p: p["E"].set(max=2000.0), {}, {}),
+            "contact point fixed at a wrong value": (
+                lambda p: p["contact_point"].set(vary=False, value=1e-6), {},
+                {}),
+            "fit range without any contact": (
+                lambda p: None, {"range_x": [1.5e-6, 5e-6]},
+                {"range_x": [0, 0]}),
+        }
+        for hname, (edit, kw1, kw2) in handicaps.items():
+            idnt = curves.make_indentation(cols)
+            key = f"refit:{mk}:{hname}"
+            run.case({"refit": hname, "model": mk}, kind="refit")
+            try:
+                with warnings.catch_warnings():
+                    warnings.simplefilter("ignore")
+                    p1 = start()
+                    edit(p1)
+                    idnt.fit_model(model_key=mk, params_initial=p1, **kw1)
+                    idnt.fit_model(model_key=mk, params_initial=start(),
+                                   **kw2)
+                pf = idnt.fit_properties["params_fitted"]
+                eE = abs(pf["E"].value / true["E"] - 1)
+                ec = abs(pf["contact_point"].value
+                         - true["contact_point"]) / span
+                eb = abs(pf["baseline"].value - true["baseline"]) / fmax
+                seg = np.asarray(idnt["segment"] == 0)
+                d = np.max(np.abs(np.asarray(idnt["fit"])[seg]
+                                  - np.asarray(idnt["force"])[seg])) / fmax
+                why = None
+                if max(eE, ec, eb) > 1e-5 or d > 1e-5:
+                    why = (f"after lifting [{hname}] the second fit reports "
+                           f"E error {eE:.2e}, cp {ec:.2e}, baseline {eb:.2e},"
+                           f" curve deviation {d:.2e} Fmax")
+            except BaseException as e:
+                why = f"raised {type(e).__name__}: {e}"
+            if why:
+                run.failing(SITE, key, f"{mk}: {why}",
+                            payload={"kind": "refit", "model": mk,
+                                     "handicap": hname},
+                            theorem="C01 (recovery; not a theorem)")
+
+
 def check(run):
     run.sources = common.source_digests(["src/nanite/fit.py",
                                          "src/nanite/indent.py",
@@ -182,6 +249,7 @@ def check(run):
         if d > 10 * te:
             fail(f"fitted curve deviates from the data by {d:.2e} Fmax on "
                  "the fitted segment")
+    refit_sequences(run)
     run.rule = ("ground truth from the implementation's own model functions: "
                 "5 models x parameters in bounds (E over 3.5 decades) x 50-"
                 "2000 points, uniform/jittered sampling x approach/retract x "
@@ -191,4 +259,21 @@ def check(run):
 
 
 def replay(rec):
+    pl = rec.get("payload") or {}
+
+    class R:
+        bad = False
+
+        def failing(self, *a, **k):
+            R.bad = True
+            return True
+
+        def case(self, *a, **k):
+            pass
+
+        def count(self, *a, **k):
+            pass
+    if pl.get("kind") == "refit":
+        refit_sequences(R())
+        return not R.bad
     return True
